@@ -9,7 +9,7 @@
     H-TRIAGE-DET, [law_tangent_sound] is H-TANGENT). *)
 From Coq Require Import ZArith List Bool.
 From Geo Require Import Model.Crosser Proofs.C03_Crosser Proofs.C03_Vertex Proofs.C03_Extra.
-From Geo Require Import Proofs.C02_Float Proofs.Link_C02_C03.
+From Geo Require Import Proofs.C02_Float Proofs.Link_C02_C03 Proofs.C03_Cyclic Proofs.Link_C02_C03_Cyclic.
 Import ListNotations.
 Local Open Scope Z_scope.
 
@@ -259,3 +259,55 @@ Theorem vertex_crossing_exactly_one_real :
   negb (vertex_crossing upoint u_peq u_sign refdir o y o x).
 Proof. exact vertex_crossing_exactly_one_real_l. Qed.
 Print Assumptions vertex_crossing_exactly_one_real.
+
+(** ------------------------------------------------------------------------------------------
+    The two remaining interface laws, discharged for the real predicates
+    (Proofs/Link_C02_C03_Cyclic.v). *)
+
+(** RobustSign does not distinguish == points (+0 / -0 twins): closed. *)
+Theorem robust_sign_respects_go_equality : law_sign_peq upoint u_peq u_sign.
+Proof. exact u_sign_peq. Qed.
+Print Assumptions robust_sign_respects_go_equality.
+
+(** The answers of RobustSign on any five pairwise different unit points satisfy the three-term
+    Grassmann-Pluecker sign condition: closed (from C02's chirotope theorem). *)
+Theorem robust_sign_grassmann_pluecker : law_sign_gp upoint u_peq u_sign.
+Proof. exact u_sign_gp. Qed.
+Print Assumptions robust_sign_grassmann_pluecker.
+
+(** The cyclic-order law of OrderedCCW follows from the laws of the orientation predicate plus
+    Grassmann-Pluecker, provided the start ray is not the vertex itself ... *)
+Theorem ordered_ccw_wedges_split : forall point peq sign,
+  law_peq_refl point peq -> law_peq_sym point peq ->
+  law_sign_rotate point sign -> law_sign_swap point sign -> law_sign_range point sign ->
+  law_sign_zero_iff point peq sign -> law_sign_peq point peq sign -> law_sign_gp point peq sign ->
+  law_occw_split_ne point peq sign.
+Proof. exact occw_split_ne. Qed.
+Print Assumptions ordered_ccw_wedges_split.
+
+(** ... and WITHOUT that guard it is false of RobustSign (r = o, three rays u v w making a full
+    turn around o): the premise [law_occw_split] of [angle_contains_vertex_exactly_one] cannot
+    be met by the real predicate; the guarded theorem below replaces it. *)
+Theorem ordered_ccw_wedges_split_unguarded_refuted : ~ law_occw_split upoint u_peq u_sign.
+Proof. exact occw_split_unguarded_refuted. Qed.
+Print Assumptions ordered_ccw_wedges_split_unguarded_refuted.
+
+Theorem ordered_ccw_wedges_split_real : law_occw_split_ne upoint u_peq u_sign.
+Proof. exact u_occw_split_ne. Qed.
+Print Assumptions ordered_ccw_wedges_split_real.
+
+(** AngleContainsVertex property (3) for the real predicates: closed; the only guard is that the
+    reference direction of the vertex is not the vertex (documented for Point.referenceDir). *)
+Theorem angle_contains_vertex_exactly_one_real : forall (refdir : upoint -> upoint) o,
+  u_peq (refdir o) o = false ->
+  forall u v l, ccw_listed upoint u_peq u_sign o (u :: v :: l) ->
+    open_count upoint u_sign refdir o (u :: v :: l) + wedge upoint u_sign refdir o (last l v) u = 1.
+Proof. exact angle_contains_vertex_exactly_one_real_l. Qed.
+Print Assumptions angle_contains_vertex_exactly_one_real.
+
+(** A two-argument call that continues through a == vertex answers like the argument: closed. *)
+Theorem crosser_argument_vertex_real : forall (refdir : upoint -> upoint) a b p c d,
+  crossing_spec upoint u_peq u_sign a b (eff upoint u_peq p c) d = crossing_spec upoint u_peq u_sign a b c d /\
+  eov_spec upoint u_peq u_sign refdir a b (eff upoint u_peq p c) d = eov_spec upoint u_peq u_sign refdir a b c d.
+Proof. exact crosser_argument_vertex_real_l. Qed.
+Print Assumptions crosser_argument_vertex_real.
